@@ -3,19 +3,25 @@ import HyperModel.Proofs.Pubsub
 /-!
 # C32 Pubsub message batching delivers in order within the size limit
 
-Model: `Model/Pubsub.lean` = `pubsub.MessageBuffer` + canoto `BatchMessage` encoding **with**
-`fixes/C32-batch-framing-overhead.patch`.  On the unrepaired code `batch_size_le_max` is
-false (`pendingSize` counts payload bytes only: two 5-byte messages with `maxSize = 10` give
-a 14-byte batch; one 10-byte message gives 12 bytes) — re-demonstrated on the Go code by the
-harness corpus on every run.  The atomic-step reading of the code (every locked region
-completes) additionally needs `fixes/C32-close-deadlock-with-timer.patch`: the unrepaired
-`Close` holds the mutex while `Timer.Stop` waits for a running timer callback that needs the
-same mutex (deadlock, re-demonstrated by the concurrent harness `TestVerifC32Par`).
+Model: `Model/Pubsub.lean` = `pubsub.MessageBuffer` + canoto `BatchMessage` encoding as of
+/repo commits ae6ebd9 ("message buffer must bound the encoded batch, not the payload bytes")
+and 9e4a691 ("MessageBuffer.Close deadlocked with a running timer callback").
+`batch_size_le_max` was violated before /repo ae6ebd9 (`pendingSize` counted payload bytes
+only: two 5-byte messages with `maxSize = 10` gave a 14-byte batch; one 10-byte message gave
+12 bytes).  The atomic-step reading of the code (every locked region completes) was false
+before /repo 9e4a691: `Close` held the mutex while `Timer.Stop` waited for a running timer
+callback that needs the same mutex (deadlock).  Both witnesses stay first in the harness
+corpora (sequential tie; forced schedule in `TestVerifC32Par`) and would be flagged again by
+the oracle keys `encoded-batch-exceeds-max` / `close-deadlocks-with-timer`.
 
-All theorems quantify over *every* configuration, every sequence of atomic steps
-(`send m | fire | close | recv`, i.e. every interleaving of producers, the timer callback,
-`Close` and the consumer — each runs under the mutex / is one channel operation) and every
-message content and size.
+All theorems quantify over *every* configuration `c : Cfg` (queue capacity and `maxSize` are
+arbitrary naturals), every sequence of atomic steps (`send m | fire | late | close | recv`,
+i.e. every interleaving of producers, the timer callback, `Close` and the consumer — each runs
+under the mutex / is one channel operation) and every message content and size.  The only
+side condition on the configuration is `hmax : c.maxSize < 2 ^ 64` in the three theorems that
+decode a batch (`batch_decodes_to_messages`, `consumer_gets_accepted_in_order`,
+`frames_eq_batches`): the varint reader rejects lengths ≥ 2^64; `maxSize` is a Go `int`
+(< 2^63), so the hypothesis holds for every configuration the code can be given.
 -/
 namespace HyperModel.Props.C32
 open HyperModel.Pubsub HyperModel.Proofs.Pubsub
